@@ -102,6 +102,17 @@ def gen_cases(ctx):
             steps = [{"on": "frame", "recv": rng.randint(0, 1), "m": m, "r": rng.randint(0, 10 ** 9)} for m in FRAME_METHODS[j:j + 2]]
             cases.append({"op": "chain", "frames": frames, "vectors": [{"kind": "objnan", "vals": vecgen.gen_vals(rng, "objnan", nrow)[:-1] + ["nan"]},
                                                                         {"kind": "objlist", "vals": vecgen.gen_vals(rng, "objlist", nrow)}], "steps": steps})
+    # every conversion on a vector that ALREADY has the dtype asked for (prices.as_float() on a float column: the usual
+    # defensive call before arithmetic): still a new vector, sharing nothing with the receiver — then edited in place
+    same = [("float", "as_float"), ("int", "as_integer"), ("bool", "as_boolean"), ("str", "as_string"), ("date", "as_date"), ("datetime", "as_datetime"),
+            ("objint", "as_object"), ("objstr", "as_object")]
+    for kind, m in same:
+        vals = ([v for v in vecgen.POOLS[kind] if not vecgen.is_na_val(kind, v)] * 2)[:4]
+        other = {"kind": "int", "vals": [1, 2, 3, 4]}
+        for chain in ([m], [m, m], [m, "copy"], ["copy", m]):
+            cases.append({"op": "chain", "frames": [{"n": 4, "cols": [{"name": "a", "kind": kind, "vals": vals}, {"name": "b", "kind": "int", "vals": [1, 2, 3, 4]}]}],
+                          "vectors": [{"kind": kind, "vals": vals}, other],
+                          "steps": [{"on": "vector", "recv": 0, "m": s, "r": 11 + i} for i, s in enumerate(chain)]})
     # every aggregation helper in its vector form on an UNSORTED vector of every kind (a helper that sorts or partitions in
     # place shows only there), and inside the callables of filter / modify on a frame with such columns
     for kind in ["int", "bool", "float", "date", "datetime", "timedelta", "str", "objint"]:
@@ -636,6 +647,10 @@ def judge(ctx, case, obs, mouts):
             ctx.violation("oracle", f"edit-observed:{m}:converted-object", f"step {ev['step']} {m}: an in-place edit of the frame changed the object {m}() had returned", case, ev)
         if ev.get("callback_shares"):
             ctx.violation("oracle", f"callback-view:{m}", f"step {ev['step']} {ev.get('desc', m)}: the group subset handed to the user function shares memory with the receiver", case, ev)
+        if ev.get("returned_is_recv") and m != "group_by" and m not in IN_PLACE and "err" not in ev:
+            # the strongest form of sharing: the method handed back the receiver itself (every later edit of the "result" is
+            # an edit of the operand); only group_by is documented to do so
+            ctx.violation("oracle", f"aliases:{m}:receiver", f"step {ev['step']} {ev.get('desc', m)}: the result IS the receiver (the same object), not a new one", case, ev)
         if m == "group_by" and "err" not in ev and not ev["returned_is_recv"]:
             ctx.violation("oracle", "group_by:not-receiver", "group_by did not return the receiver", case, ev)
         if ev.get("returned") and ev["recv_size"] > 0 and "err" not in ev:
